@@ -1,3 +1,4 @@
+import Fpdec.Kernels.DecMul
 import Fpdec.Kernels.WideFits
 import Fpdec.Kernels.Wide
 import Fpdec.Kernels.Round
@@ -239,5 +240,9 @@ theorem kernel_i128_shifted_div_rounded (prof : Profile) (tm : Mode) (a : Int) (
 theorem kernel_i128_mul_div_ten_pow_rounded (prof : Profile) (tm : Mode) (x y : Int) (p : Nat) (mode : Option Mode) :
     Gen.K.i128_mul_div_ten_pow_rounded prof tm x y p mode = i128MulDivTenPowRounded prof tm x y p mode :=
   Kernels.i128_mul_div_ten_pow_rounded_eq' prof tm x y p mode
+
+theorem kernel_checked_mul_rounded (prof : Profile) (tm : Mode) (x y : Dec) (n : Nat) (hn : n < 256) :
+    Gen.K.checked_mul_rounded prof tm x y n = checkedMulRounded prof tm x y n :=
+  Kernels.checked_mul_rounded_eq prof tm x y n hn
 
 end Fpdec.Props.C02
